@@ -48,7 +48,7 @@ struct State
 	int next_gen = 1;
 	std::string err;
 	Ctx* ctx = nullptr;
-	bool saw_moving_accept = false, saw_move_accepted = false;
+	bool saw_moving_accept = false, saw_move_accepted = false, saw_eph_skip = false;
 	bool saw_rebind_other = false, saw_move_bound = false, saw_collision = false, saw_destroy_bound = false, saw_inflight = false, saw_wrap = false;
 	std::map<Key, int> released_by; // endpoint -> slot that last released it
 	// in-flight expectations: tag -> (proto, key, gen at send time)
@@ -57,6 +57,7 @@ struct State
 	std::vector<std::unique_ptr<udp::socket>> probe_udp;
 	std::vector<std::unique_ptr<tcp::socket>> probe_tcp;
 	int next_tag = 1;
+	int last_eph = 0; // the ephemeral port handed out most recently (to an object of the case)
 };
 
 bool fail(State& s, std::string m) { if (s.err.empty()) s.err = std::move(m); return false; }
@@ -127,6 +128,7 @@ void do_bind(State& s, int slot, int akind, int pkind, int c)
 		case 0: port = 0; break;
 		case 1: port = 1 + (c % 1023); break;
 		case 2: case 3: case 4: case 5: port = 5000 + (pkind - 2); break;
+		case 7: port = (s.last_eph > 0 ? s.last_eph : 1999) + 1 + (c % 4); if (port > 65535) port = 2000 + (c % 4); break; // just ahead of the ephemeral counter
 		default: port = 60000 + (c % 5000); break;
 	}
 	// reference: set of applicable errors
@@ -168,7 +170,9 @@ void do_bind(State& s, int slot, int akind, int pkind, int c)
 	{
 		if (got_port == 0) { fail(s, fmt("bind to port 0 on object %d left port 0", slot)); return; }
 		if (s.reg.count(Key{proto, resolved, got_port})) { fail(s, fmt("bind to port 0 on object %d returned port %d which is already taken on %s", slot, got_port, resolved.to_string().c_str())); return; }
-		port = got_port;
+		// the search had to step over >= 2 taken candidates?
+		if (s.last_eph > 0 && got_port > s.last_eph + 2 && s.reg.count(Key{proto, resolved, s.last_eph + 1}) && s.reg.count(Key{proto, resolved, s.last_eph + 2})) s.saw_eph_skip = true;
+		port = got_port; s.last_eph = got_port;
 	}
 	Key k{proto, resolved, port};
 	auto rb = s.released_by.find(k);
@@ -212,7 +216,7 @@ void do_connect(State& s, int slot, int target_slot)
 		if (ec || ep.port() == 0) { fail(s, fmt("async_connect on unbound object %d did not bind it implicitly", slot)); return; }
 		if (ep.address() != x.addr) { fail(s, fmt("implicit bind of object %d chose %s, expected the node's first address of that family %s", slot, ep.address().to_string().c_str(), x.addr.to_string().c_str())); return; }
 		if (s.reg.count(Key{0, x.addr, ep.port()})) { fail(s, fmt("implicit bind of object %d returned taken port %d", slot, ep.port())); return; }
-		x.bound = true; x.port = ep.port(); x.gen = s.next_gen++;
+		x.bound = true; x.port = ep.port(); x.gen = s.next_gen++; s.last_eph = x.port;
 		s.reg[Key{0, x.addr, x.port}] = {slot, x.gen};
 	}
 	else if (!x.bound) { x.addr = address(); }
@@ -536,7 +540,7 @@ Verdict run_case(Case const& c, Ctx& ctx)
 					x.open = true; x.v6 = v6; x.listening = false; x.tried_connect = false;
 					break;
 				}
-				case 1: name = "bind"; do_bind(s, slot, int(a % 6), int(b % 7), int(cc)); break;
+				case 1: name = "bind"; do_bind(s, slot, int(a % 6), int(b % 8), int(cc)); break;
 				case 2:
 				{
 					name = "listen";
@@ -627,6 +631,7 @@ Verdict run_case(Case const& c, Ctx& ctx)
 	if (s.saw_collision) ctx.label("collision");
 	if (s.saw_inflight) ctx.label("inflight");
 	if (s.saw_wrap) ctx.label("ephemeral_wrap");
+	if (s.saw_eph_skip) ctx.label("ephemeral_skips_taken_ports");
 	if (s.saw_moving_accept) ctx.label("socket_returning_accept");
 	if (s.saw_move_accepted) ctx.label("move_accepted_socket");
 	v.nontrivial = s.saw_rebind_other || s.saw_move_bound || s.saw_destroy_bound || s.saw_collision;
@@ -642,7 +647,7 @@ rc::Gen<std::vector<Rec>> gen_snippet()
 {
 	auto slot = kit::range(0, MAXOBJ - 1);
 	auto akind = kit::weighted({{5, 0}, {1, 1}, {4, 2}, {1, 3}, {1, 4}, {1, 5}});
-	auto pkind = kit::weighted({{3, 0}, {1, 1}, {4, 2}, {3, 3}, {2, 4}, {1, 5}, {1, 6}});
+	auto pkind = kit::weighted({{3, 0}, {1, 1}, {4, 2}, {3, 3}, {2, 4}, {1, 5}, {1, 6}, {2, 7}});
 	auto single = rc::gen::map(rc::gen::tuple(
 		kit::weighted({{3, 0}, {6, 1}, {4, 2}, {3, 3}, {5, 4}, {2, 5}, {3, 6}, {2, 7}, {2, 8}, {3, 10}, {3, 11}}),
 		slot, kit::range(0, 7), pkind, kit::range(0, 5000)),
@@ -704,12 +709,36 @@ rc::Gen<Case> gen_case(int maxcmd, bool burn)
 		});
 }
 
+// explicit binds just ahead of the ephemeral counter, then binds to port 0: the search for a free port must step over
+// every taken candidate (objects of one kind on one node, so that they share a table and an address)
+rc::Gen<Case> gen_fence()
+{
+	return rc::gen::map(rc::gen::tuple(kit::range(0, 2), kit::range(1, 4), kit::range(0, 3), rc::gen::container<std::vector<long long>>(kit::weighted({{1, 0}, {1, 2}})), rc::gen::container<std::vector<std::vector<Rec>>>(gen_snippet())),
+		[](std::tuple<long long, long long, long long, std::vector<long long>, std::vector<std::vector<Rec>>> t) {
+			Case c;
+			Rec nd; nd.name = "node"; nd.a = {0}; c.recs.push_back(nd);
+			long long const kind = std::get<0>(t), k = std::get<1>(t), skip = std::get<2>(t);
+			auto const& ak = std::get<3>(t);
+			auto akind = [&](std::size_t i) { return i < ak.size() ? ak[i] : 0LL; };
+			for (int i = 0; i < MAXOBJ; ++i) { Rec r; r.name = "obj"; r.a = {i, kind, 0}; c.recs.push_back(r); c.recs.push_back(mkcmd(0, i, 0)); }
+			c.recs.push_back(mkcmd(1, 0, akind(0), 0, 0));                       // learn where the counter is
+			for (long long i = 0; i < k; ++i) c.recs.push_back(mkcmd(1, 1 + i, akind(std::size_t(1 + i)), 7, i == k - 1 ? i + (skip == 3 ? 1 : 0) : i)); // the next k ports (optionally a gap before the last)
+			c.recs.push_back(mkcmd(1, 5, akind(5), 0, 0));
+			c.recs.push_back(mkcmd(1, 6, akind(6), 0, 0));
+			c.recs.push_back(mkcmd(10, 0));
+			int n = 0;
+			for (auto& sn : std::get<4>(t)) for (auto& r : sn) if (n++ < 20) c.recs.push_back(std::move(r));
+			return c;
+		});
+}
+
 void campaign(Ctx& ctx)
 {
 	bool const thorough = ctx.opt.tier == "thorough";
 	int const n = thorough ? 40000 : 1500;
 	ctx.rc_campaign("registry histories (short)", gen_case(25, false), n, 60, 1);
 	ctx.rc_campaign("registry histories (long)", gen_case(80, thorough), n / 2, 200, 2);
+	ctx.rc_campaign("ephemeral fence", gen_fence(), n / 3, 60, 3);
 	if (ctx.opt.worker == 0 && !ctx.failed)
 	{
 		// one deterministic wrap-around case per run (65534 -> 2000)
